@@ -585,6 +585,13 @@ class Prims:
                 if any(is_client(o) for o in self.origins(n.args[0], fn, sc)):
                     self.record(fn, n, "rlp.decode", "raises", "Exception")
                     out.append(("Exception", f"rlp.decode({norm(n.args[0])[:40]}) on client data"))
+            elif nm == "encode" and isinstance(f, ast.Attribute) and norm(f.value) == "rlp" and n.args:
+                # re-encoding a structure decoded from client bytes: rlp.decode is iterative enough to accept lists nested a
+                # few hundred levels deep, the recursive encoder then exceeds the interpreter's recursion limit
+                if any(o in (RLP, RLPE) or is_client(o) for o in self.origins(n.args[0], fn, sc)):
+                    if not self.just(fn, n, "RecursionError"):
+                        self.record(fn, n, "rlp.encode", "raises", "RecursionError")
+                        out.append(("RecursionError", f"rlp.encode({norm(n.args[0])[:40]}) of a structure decoded from client data (lists nested some hundred levels deep)"))
             elif nm == "loads" and isinstance(f, ast.Attribute) and norm(f.value) == "json":
                 self.record(fn, n, "json.loads", "raises", "JSONDecodeError, ValueError, RecursionError")
                 for e in ("JSONDecodeError", "ValueError", "RecursionError"):
